@@ -2,9 +2,9 @@
 from __future__ import annotations
 from engine.registry import Registry
 from engine import sortmodel, polymodel
-from contracts import option, sorting, align, compare, order_lemmas, leading, dispatch, construct, dispatchfn, baseclass, derivative, division, statics, call, codec, shapefn, display, polynomial, numeric, multiply
+from contracts import option, sorting, align, compare, order_lemmas, leading, dispatch, construct, dispatchfn, baseclass, derivative, division, statics, call, codec, shapefn, display, polynomial, numeric, multiply, indexing
 
-_CONTRACT_MODULES = [option, sorting, align, compare, leading, dispatch, construct, dispatchfn, baseclass, derivative, division, call, codec, shapefn, polynomial, numeric, multiply]
+_CONTRACT_MODULES = [option, sorting, align, compare, leading, dispatch, construct, dispatchfn, baseclass, derivative, division, call, codec, shapefn, polynomial, numeric, multiply, indexing]
 
 ALL_CONTRACTS = {}
 for _m in _CONTRACT_MODULES:
@@ -205,7 +205,7 @@ PROPS = {
                 assumptions=["B7 (coefficient-level definition of the formal partial derivative)", "A1"],
                 not_decided=["hessian (bounded only)", "negative positions (bounded only)",
                              "ring-level laws of pdiff (linearity, product rule, symmetry): facts of MvPolynomial.pderiv, not re-proved"]),
-    "C09": dict(level="other", contracts=["numpoly.ndpoly.__getitem__", "numpoly.ndpoly.__array_finalize__"] + [
+    "C09": dict(level="other", contracts=["numpoly.ndpoly.__getitem__", "numpoly.ndpoly.__array_finalize__", "numpoly.full", "numpoly.full_like"] + [
                     f"numpoly.{f}" for f in ("reshape", "transpose", "repeat", "tile", "expand_dims", "diag", "diagonal", "atleast_1d",
                                              "atleast_2d", "atleast_3d", "split", "array_split", "hsplit", "vsplit", "dsplit",
                                              "concatenate", "stack", "hstack", "vstack", "dstack", "moveaxis", "where")],
@@ -256,7 +256,7 @@ PROPS = {
                 not_decided=["numeric values of the mirrored catalogue on constants (bounded)"]),
     "C12": dict(level="other", contracts=["numpoly.polynomial_from_attributes", "numpoly.clean_attributes", "numpoly.ndpoly.astype",
                                           "numpoly.polynomial", "numpoly.aspolynomial", "numpoly.multiply", "numpoly.true_divide",
-                                          "numpoly.floor_divide"],
+                                          "numpoly.floor_divide", "numpoly.full", "numpoly.full_like"],
                 explanation="Definedness ghost state: polynomial_from_attributes (through which every constructor and operation "
                 "returns) is proved to write every coefficient on every path (compiled setter only under its precondition, numpy "
                 "fallback, empty case) and to carry the requested dtype; clean_attributes requires defined input. The dtype "
@@ -363,7 +363,7 @@ PROPS = {
     ),
     "C18": dict(
         level="other",
-        contracts=["numpoly.glexsort"],
+        contracts=["numpoly.glexsort", "numpoly.bindex"],
         statics=[statics.module_state_obligations],
         trusted_base=COMMON_TRUSTED + ["numpy.lexsort / numpy.argsort(kind='stable') / fancy indexing axioms (engine/sortmodel.py)",
                                        "order axioms for lexle/meq/mrev (conformance-tested against conc/model.col_key)"],
